@@ -485,5 +485,79 @@ func runSerialExtra(raw json.RawMessage, seed int64) (res Result) {
 			}
 		}
 	}
+	// signature strings inside LISTS: every entry is parsed on its own, so entries whose lengths compensate each other, or one
+	// bad entry at any position among valid ones, are rejected (aggregation, batch verification, threshold reconstruction)
+	{
+		h := crypto.NewExpandMsgXOFKMAC128("t")
+		msg := []byte("m")
+		tsks, tpks, tgpk, terr := crypto.BLSThresholdKeyGen(4, 2, w.randBytes(32))
+		if terr != nil {
+			add("ThresholdKeyGen", terr.Error())
+			return
+		}
+		_ = tgpk
+		var vs []crypto.Signature
+		for i := range tsks {
+			sg, _ := tsks[i].Sign(msg, h)
+			vs = append(vs, sg)
+		}
+		cat := func(a ...[]byte) []byte {
+			var o []byte
+			for _, x := range a {
+				o = append(o, x...)
+			}
+			return o
+		}
+		xgep := w.BadEncoding("xgep", vs[0])
+		lists := map[string][]crypto.Signature{
+			"47+49":        {vs[0][:47], cat(vs[0][47:], vs[1])},
+			"0+96":         {{}, cat(vs[0], vs[1])},
+			"nil+48+96":    {nil, vs[2], cat(vs[0], vs[1])},
+			"49+47":        {cat(vs[0], vs[1][:1]), vs[1][1:]},
+			"1+48+95":      {vs[0][:1], vs[2], cat(vs[0][1:], vs[1])},
+			"48+48+47+49":  {vs[2], vs[3], vs[0][:47], cat(vs[0][47:], vs[1])},
+			"bad-first":    {xgep, vs[1], vs[2]},
+			"bad-middle":   {vs[0], xgep, vs[2]},
+			"bad-last":     {vs[0], vs[1], xgep},
+			"short-last":   {vs[0], vs[1], vs[2][:47]},
+			"long-last":    {vs[0], vs[1], cat(vs[2], []byte{0})},
+			"long-first":   {cat(vs[0], []byte{0}), vs[1], vs[2]},
+			"empty-middle": {vs[0], {}, vs[2]},
+		}
+		for name, l := range lists {
+			res.Evals += 3
+			if out, err := crypto.AggregateBLSSignatures(l); err == nil {
+				add("AcceptsExactlyCanonical", fmt.Sprintf("AggregateBLSSignatures accepts the list %q (entry lengths %v) and returns %x: entries that are not 48-byte canonical encodings must be rejected", name, lens(l), []byte(out)))
+			} else if !crypto.IsInvalidSignatureError(err) && !crypto.IsInvalidInputsError(err) {
+				add("RejectionClass", fmt.Sprintf("AggregateBLSSignatures on the list %q: %v", name, err))
+			}
+			// batch verification: the malformed entries are false, the valid ones true (same positions as individual Verify)
+			if len(l) <= len(tpks) {
+				oks, err := crypto.BatchVerifyBLSSignaturesOneMessage(tpks[:len(l)], l, msg, h)
+				for i := range l {
+					ind, _ := tpks[i].Verify(l[i], msg, h)
+					if err == nil && i < len(oks) && oks[i] != ind {
+						add("AcceptsExactlyCanonical", fmt.Sprintf("BatchVerify on the list %q: index %d is %v, individual Verify says %v", name, i, oks[i], ind))
+					}
+				}
+			}
+			// threshold reconstruction from exactly t+1 = 3 entries
+			if len(l) == 3 {
+				if ts, err := crypto.BLSReconstructThresholdSignature(4, 2, l, []int{0, 1, 2}); err == nil {
+					if ok, _ := tgpk.Verify(ts, msg, h); !ok || name != "" {
+						add("AcceptsExactlyCanonical", fmt.Sprintf("BLSReconstructThresholdSignature accepts the list %q (entry lengths %v)", name, lens(l)))
+					}
+				}
+			}
+		}
+	}
 	return
+}
+
+func lens(l []crypto.Signature) []int {
+	o := make([]int, len(l))
+	for i := range l {
+		o[i] = len(l[i])
+	}
+	return o
 }
